@@ -741,9 +741,9 @@ pub fn run_c08(ctx: &Ctx) -> ! {
         .collect();
     // "forall scenarios": every distinct bisync transition of the E2 history graph is a scenario
     let bounds = if thorough {
-        vec![crate::e2::Bound { u0: vec!["f"], e: 3, m: 2, state_cap: 400_000 }, crate::e2::Bound { u0: vec!["f", "d/g"], e: 2, m: 1, state_cap: 400_000 }]
+        vec![crate::e2::Bound { u0: vec!["f"], e: 3, m: 2, state_cap: 400_000, decor: vec![] }, crate::e2::Bound { u0: vec!["f", "d/g"], e: 2, m: 1, state_cap: 400_000, decor: vec![] }]
     } else {
-        vec![crate::e2::Bound { u0: vec!["f"], e: 2, m: 2, state_cap: 400_000 }]
+        vec![crate::e2::Bound { u0: vec!["f"], e: 2, m: 2, state_cap: 400_000, decor: vec![] }]
     };
     let mut pre: Vec<(crate::e2::State, Vec<String>)> = Vec::new();
     let _ = crate::e2::explore_collect(ctx, "none", &bounds, 0, Some(&mut pre));
